@@ -56,6 +56,17 @@ class Prop:
         for t in nmea_cases.TALKERS:
             plain.append(gen.render(gen.payload_bits(rng, 'MessageType1'), talker=t + rng.choice(['VDM', 'VDO']))[0])
         cases = [('valid', l) for l in plain]
+        # a correctly checksummed sentence for EVERY value the checksum can take (00 included): flagged valid
+        by_value = {}
+        tries = 0
+        while len(by_value) < 128 and tries < 40000:
+            tries += 1
+            l = gen.render(gen.payload_bits(rng, rng.choice(['MessageType1', 'MessageType18', 'MessageType27', 'MessageType9'])),
+                           chan=rng.choice('AB'))[0]
+            by_value.setdefault(int(l[-2:], 16), l)
+        for v in sorted(by_value):
+            cases.append(('valid-chk=%02X' % v, by_value[v]))
+        ctx.dist['checksum_values_covered_by_valid_sentences'] = len(by_value)
         # wrong checksum values
         for l in plain[:3]:
             star = l.rfind(b'*')
